@@ -115,6 +115,7 @@ template <class Front> struct Mp11 : boost::msm::backmp11::state_machine<Front, 
 #endif
 
 #if VF_FAMILY == 3
+#define VF_HIST(...) void
 #define VF_GET(m, T) (m).template get_state<T>()
 #define VF_KLEENE std::any
 #define VF_ANY_CAST std::any_cast
@@ -122,6 +123,7 @@ template <class Front> struct Mp11 : boost::msm::backmp11::state_machine<Front, 
 #define VF_EXEC_QUEUED(r) (r).process_event_pool()
 #define VF_EXEC_SINGLE(r) (r).process_event_pool(1)
 #else
+#define VF_HIST(...) __VA_ARGS__
 #define VF_GET(m, T) (m).template get_state<T&>()
 #define VF_KLEENE boost::any
 #define VF_ANY_CAST boost::any_cast
